@@ -842,7 +842,16 @@ class Engine(
             case ColumnInContainer(item=item, container=container):
                 sql_item = self.expect_column_scalar(self.convert_column_expression(item, columns_available))
                 match container:
-                    case ColumnRangeLiteral(value=range(start=start, stop=stop_exclusive, step=step)):
+                    case ColumnRangeLiteral(value=range_value):
+                        if not range_value:
+                            # Empty range (including ones with a negative step
+                            # whose stop is not below their start).
+                            return sqlalchemy.sql.literal(False)
+                        if range_value.step < 0:
+                            # A reversed range has the same members and a
+                            # positive step.
+                            range_value = range_value[::-1]
+                        start, stop_exclusive, step = range_value.start, range_value.stop, range_value.step
                         # The convert_column_literal calls below should just
                         # call sqlalchemy.sql.literal(int), which would also
                         # happen automatically internal to any of the other
@@ -860,13 +869,19 @@ class Engine(
                                 self.convert_column_literal(stop_inclusive),
                             )
                             if step != 1:
-                                return sqlalchemy.sql.and_(
-                                    *[
-                                        target,
-                                        sql_item % self.convert_column_literal(step)
-                                        == self.convert_column_literal(start % step),
-                                    ]
-                                )
+                                if start < 0:
+                                    # SQL's % takes the sign of its first
+                                    # operand in most databases, unlike
+                                    # Python's, so only compare remainders of
+                                    # non-negative values.
+                                    remainder = (sql_item - self.convert_column_literal(start)) % (
+                                        self.convert_column_literal(step)
+                                    ) == self.convert_column_literal(0)
+                                else:
+                                    remainder = sql_item % self.convert_column_literal(
+                                        step
+                                    ) == self.convert_column_literal(start % step)
+                                return sqlalchemy.sql.and_(*[target, remainder])
                             else:
                                 return target
                     case ColumnExpressionSequence(items=items):
